@@ -352,17 +352,29 @@ func procWorld(c caseA) (*world, error) {
 	}
 	// the real process runs with the access log on: the loggers see every answer, also the ones given before
 	// a request is authenticated
+	logFile := filepath.Join(sb.Area, "access.log")
+	if c.Sidecar {
+		// half of the worlds log to a volume without space left: every write to the access log fails, the requests
+		// themselves are none the worse for it
+		logFile = "/dev/full"
+	}
 	p, err := gw.StartProc(gw.Config{SB: sb, Versioning: c.Versioning, Sidecar: c.Sidecar,
 		// ... and with a short life of cached accounts: entries expire between the requests of one run, so the
 		// paths "cached", "expired" and "looked up again" are all taken
-		ExtraArgs: []string{"--access-log", filepath.Join(sb.Area, "access.log"), "--iam-cache-ttl", "1", "--iam-cache-prune", "7"}})
+		ExtraArgs: []string{"--access-log", logFile, "--iam-cache-ttl", "1", "--iam-cache-prune", "7"}})
 	if err != nil {
 		return nil, err
 	}
 	fx, err := cat.Build(sb, p, c.Versioning)
 	if err != nil {
+		alive := p.Alive()
+		out := p.Output()
 		p.Kill()
-		return nil, err
+		// the fixture is built with plain valid requests: a gateway that does not get through them is no setup problem
+		if len(out) > 600 {
+			out = out[len(out)-600:]
+		}
+		return nil, fmt.Errorf("NOT SERVING: the gateway (flags --access-log %s, process alive: %v) does not get through the valid requests that set the scene: %v; its output ends: %q", logFile, alive, err, out)
 	}
 	w := &world{sb: sb, proc: p, fx: fx, t: p}
 	procW[key] = w
@@ -417,6 +429,9 @@ func execA(c caseA) (o outcome, err error) {
 		if err == nil {
 			defer func() { w.eng.Shutdown(); w.sb.Remove() }()
 		}
+	}
+	if err != nil && strings.HasPrefix(err.Error(), "NOT SERVING") {
+		return o, err
 	}
 	if err != nil {
 		return o, fmt.Errorf("SETUP: %v", err)
